@@ -27,7 +27,7 @@ def layout_key(s):
     return (side(L["p"]), side(L["r"]), s["variadic"])
 
 
-def run(ctx):
+def witnesses(ctx, nquick, nthorough):
     q = ctx.quick()
     consts = {"MaxGroups": 2, "Rep": 5}
     if q:
@@ -40,17 +40,28 @@ def run(ctx):
         classes.setdefault(layout_key(s), s)
     reps = list(classes.values())
     random.Random(ctx.seed).shuffle(reps)
-    chosen = reps[:60 if q else 700] + EXTRA
+    chosen = reps[:nquick if q else nthorough] + EXTRA
     ctx.note("ABI: %d signatures enumerated, NoClobber holds, %d distinct register/stack usage classes, %d witnesses generated" % (len(sigs), len(classes), len(chosen)))
+    return chosen
+
+
+def zoo_run(ctx, chosen, configs):
+    """configs: list of (env, tag). Builds the generated zoo and judges every record with Trace_Dispatch."""
     files = zoogen.generate(chosen)
     ov = ctx.extra_overlay(ctx.overlay(["zoo"]), files)
     binary = ctx.build_test("zzverif/zoodrv", ["zoo"], name="zoodrv", overlay=ov)
-    for env, tag in (({"GODEBUG": "clobberfree=1"}, "logging off"), ({"GODEBUG": "clobberfree=1", "VERIF_LOG": "debug", "VERIF_QUIET": "1"}, "debug logging")):
+    for env, tag in configs:
         out = ctx.path("zoo.ndjson")
         if os.path.exists(out):
             os.remove(out)
         rc, o = ctx.run_bin(binary, "^TestVerifZoo$", env=dict(env, VERIF_OUT=out), timeout=1500)
         lines = open(out).read().splitlines() if os.path.exists(out) else []
+        def _j(x):
+            try:
+                return json.loads(x)
+            except ValueError:
+                return None
+        lines = [x for x in lines if _j(x) is not None]
         if rc != 0:
             last = json.loads(lines[-1]) if lines else {}
             ctx.violation("calling a mocked function crashed the process (%s) after signature %s: %s" % (tag, last.get("desc"), o[-700:]),
@@ -78,6 +89,13 @@ def run(ctx):
         ctx.count(len(recs))
         ctx.sample(recs[len(recs) // 2])
         ctx.note("%s: %d signatures x 2 replacement kinds x 2 moments x 5 call forms + reset: %d records" % (tag, len(chosen), len(recs)))
+
+
+def run(ctx):
+    q = ctx.quick()
+    chosen = witnesses(ctx, 60, 700)
+    zoo_run(ctx, chosen, [({"GODEBUG": "clobberfree=1"}, "logging off"),
+                          ({"GODEBUG": "clobberfree=1", "VERIF_LOG": "debug", "VERIF_QUIET": "1"}, "debug logging")])
     # lifecycle: calls at TLC-chosen points of random histories (incl. Origin) through 4 handle kinds
     base = {"B": '{"b1"}', "T": '{"f", "g"}', "CB": '{"c1", "c2"}', "RS": "<- RS_12", "A": "{0, 1}", "Ops": "<- AllOps"}
     behs = life.sim(ctx, base, 150 if q else 3000, 10, "random lifecycles with calls")
